@@ -189,7 +189,31 @@ class LoopMixin:
         N0 = self.next_addr
         mods = []
         for m in sp.modifies:
-            mods.extend(self.eval_locs(m, env=env))
+            if m != "*":
+                mods.extend(self.eval_locs(m, env=env))
+        if "*" in sp.modifies:
+            # the body may modify anything (external calls) except the protected locations
+            prot = []
+            for m in getattr(sp, "protect", ()):
+                prot.extend(self.eval_locs(m, env=env))
+
+            def cond_all(field, idx, _prot=prot):
+                cs = []
+                for p in _prot:
+                    c = self.loc_match(p, field, idx)
+                    if c is not None:
+                        cs.append(c)
+                if not cs:
+                    return None
+                return z3.simplify(z3.Or(*cs))
+
+            self.heap = self.heap.havoc(cond_all, tag=core.fresh_name("L"), preserves=sp.preserves)
+            self.invalidate_shapes(cond_all)
+            self.next_addr = fresh("N", core.IntS)
+            self.assume(self.next_addr >= N0)
+            self.loop_head_ver = dict(self.heap.ver)
+            self._havoc_locals(sp, frame, body)
+            return before
 
         def cond(field, idx, _mods=mods, _N0=N0):
             a = idx[0]
@@ -206,10 +230,16 @@ class LoopMixin:
             untouched = z3.Not(z3.Or(*cs)) if cs else z3.BoolVal(True)
             return z3.simplify(z3.And(a < _N0, untouched))
 
-        self.heap = self.heap.havoc(cond, tag=core.fresh_name("L"))
-        self.invalidate_shapes(cond)
-        self.next_addr = fresh("N", core.IntS)
-        self.assume(self.next_addr >= N0)
+        if not sp.pure:
+            self.heap = self.heap.havoc(cond, tag=core.fresh_name("L"), preserves=sp.preserves)
+            self.invalidate_shapes(cond)
+            self.next_addr = fresh("N", core.IntS)
+            self.assume(self.next_addr >= N0)
+        self.loop_head_ver = dict(self.heap.ver)
+        self._havoc_locals(sp, frame, body)
+        return before
+
+    def _havoc_locals(self, sp, frame, body):
         for name in sorted(assigned_names(body)):
             cur = frame.lookup(name)
             hint = (self.unit.locals or {}).get(name) or (cur.hint if cur is not None and cur.k != "py" else None)
@@ -220,7 +250,20 @@ class LoopMixin:
             self.closed(v)
             self.apply_hint_facts(tv)
             self.bind(name, tv, frame)
-        return before
+
+    def check_pure(self, sp, head_heap, label):
+        if not sp.pure:
+            return
+        for f in core.HEAP_FIELDS:
+            if self.heap.cur[f].get_id() != head_heap.cur[f].get_id():
+                raise Unsupported(f"loop {label} is declared pure but its body writes heap array {f}")
+
+    def check_preserved(self, names, ver0, kind, label):
+        """the footprints listed as preserved were never written on this path"""
+        for nm in names:
+            if nm in ver0:
+                self.oblige(kind, f"{label}.preserves[{nm}]", self.heap.version(nm) == ver0[nm],
+                            f"no write to footprint {nm!r}", None)
 
     def check_clauses(self, clauses, env, kind, label, old_heap=None, extra=None):
         for i, cl in enumerate(clauses):
@@ -230,11 +273,15 @@ class LoopMixin:
             self.oblige(kind, f"{label}.{lab or i}", t, text, prop)
 
     def assume_clauses(self, clauses, env, old_heap=None, extra=None):
-        for cl in clauses:
-            lab, text, prop = named(cl)
-            t, side = self.spec(text, env, old_heap=old_heap, extra=extra)
-            self.assume_all(side)
-            self.assume(t)
+        self.spec_mode = "assume"
+        try:
+            for cl in clauses:
+                lab, text, prop = named(cl)
+                t, side = self.spec(text, env, old_heap=old_heap, extra=extra)
+                self.assume_all(side)
+                self.assume(t)
+        finally:
+            self.spec_mode = "prove"
 
     def invariant_for(self, s, frame, it, sp):
         label = "for:" + ast.unparse(s.iter)
@@ -246,10 +293,18 @@ class LoopMixin:
         self.check_clauses(sp.inv, env0, "INV-INIT", label, extra=extra)
         trace_mark = len(self.trace)
         self.havoc_for_loop(sp, frame, s.body + [ast.Assign(targets=[s.target], value=ast.Constant(None))], env0, label)
+        head_ver = dict(self.heap.ver)
+        head_heap = self.heap
         ln2, get = self.seq_access(it)  # re-read after havoc (frame facts relate them)
         i = fresh(idx.strip("_") or "i", core.IntS)
         self.assume(i >= 0)
-        d = self.choose(2, [i < ln2, i == ln2], f"loop:{label}")
+        if getattr(sp, "body_unit", None):
+            # the body is verified as a region unit of its own (which carries the
+            # INV-PRES step as requires/ensures); here only the exit is explored
+            d = 1
+            self.assume(i == ln2)
+        else:
+            d = self.choose(2, [i < ln2, i == ln2], f"loop:{label}")
         env = self.loop_env(frame, {idx: TV("int", i)})
         self.assume_clauses(sp.inv, env, extra=extra)
         if d == 0:
@@ -265,6 +320,8 @@ class LoopMixin:
             if outcome == "next":
                 env2 = self.loop_env(frame, {idx: TV("int", i + 1)})
                 self.check_clauses(sp.inv, env2, "INV-PRES", label, extra=extra)
+                self.check_preserved(sp.preserves, head_ver, "INV-PRES", label)
+                self.check_pure(sp, head_heap, label)
                 raise PathEnd("loop body done")
             return  # break: skip else
         self.exec_block(s.orelse, frame)
@@ -297,6 +354,8 @@ class LoopMixin:
         env0 = self.loop_env(frame)
         self.check_clauses(sp.inv, env0, "INV-INIT", label, extra=extra)
         self.havoc_for_loop(sp, frame, s.body, env0, label)
+        head_ver = dict(self.heap.ver)
+        head_heap = self.heap
         env = self.loop_env(frame)
         self.assume_clauses(sp.inv, env, extra=extra)
         var0 = None
@@ -316,6 +375,8 @@ class LoopMixin:
             if outcome == "next":
                 env2 = self.loop_env(frame)
                 self.check_clauses(sp.inv, env2, "INV-PRES", label, extra=extra)
+                self.check_preserved(sp.preserves, head_ver, "INV-PRES", label)
+                self.check_pure(sp, head_heap, label)
                 if var0 is not None:
                     from .spec import SpecEval
 
@@ -327,6 +388,9 @@ class LoopMixin:
 
     # -------------------------------------------------------- obligations
     def oblige(self, kind, label, goal, text, prop=None, where=None):
+        only = self.opts.get("prop")
+        if only is not None and prop is not None and prop != only:
+            return None  # clause of another property served by this unit: decided by that check
         ob = Obligation(self.unit.name if self.unit else "?", kind, label,
                         prop,
                         list(self.pc), goal, list(self.branch_log), text=text,
@@ -389,7 +453,7 @@ class LoopMixin:
                 untouched = z3.Not(z3.Or(*cs)) if cs else z3.BoolVal(True)
                 return z3.simplify(z3.And(idx[0] < _N0, untouched))
 
-            self.heap = self.heap.havoc(cond, tag=core.fresh_name("C"))
+            self.heap = self.heap.havoc(cond, tag=core.fresh_name("C"), preserves=unit.preserves)
             self.invalidate_shapes(cond)
             self.next_addr = fresh("N", core.IntS)
             self.assume(self.next_addr >= N0)
